@@ -613,7 +613,7 @@ func parseConv(line string) (childCfg, *conv, error) {
 
 func blastTiming(cfg childCfg) timing {
 	closeBound := time.Duration(max(cfg.IdleMs, cfg.ReadMs)+cfg.CheckMs)*time.Millisecond + 7*time.Second
-	return timing{resp: 6 * time.Second, close: closeBound}
+	return timing{resp: 9 * time.Second, close: closeBound}
 }
 
 // judgeConv evaluates the per-connection oracle.
@@ -621,6 +621,10 @@ func judgeConv(cfg childCfg, cv *conv, r convResult, out *workerOut) {
 	desc := describeConv(cfg, cv)
 	if r.dialErr != nil {
 		out.fails = append(out.fails, fail{"server-refuses-connections", desc, r.dialErr.Error()})
+		return
+	}
+	if r.tunnelRace {
+		out.kinds["http-tunnel-get-post-race"]++
 		return
 	}
 	if r.noAnswer {
@@ -881,12 +885,15 @@ func main() {
 	}
 
 	// 1. corpus: the known findings, each alone in a fresh child (deterministic)
-	t0 := time.Now()
-	record(ctx, runCorpus())
-	ctx.Extra("corpus_wall_s", time.Since(t0).Seconds())
+	var corpusOut *workerOut
+	corpusDone := make(chan struct{})
+	go func() {
+		corpusOut = runCorpus()
+		close(corpusDone)
+	}()
 
 	// 2. ledger + blast workers, one pair per configuration, in parallel
-	nScen := ctx.Budget(140, 4000)
+	nScen := ctx.Budget(100, 4000)
 	type job struct {
 		out *workerOut
 	}
@@ -912,6 +919,8 @@ func main() {
 		}(i, cfg)
 	}
 	wg.Wait()
+	<-corpusDone
+	record(ctx, corpusOut) // corpus cases come first in the oracle log
 	for i, o := range outs {
 		record(ctx, o)
 		kind := "ledger"
